@@ -18,3 +18,7 @@ add("C02", "symbolic execution of Image.subregion/time_slice/time_interval/appen
     "Bounded symbolic model checking over programs of extraction steps: data-block identity is term-wise over distinct symbolic voxel values, placement is checked for a symbolic probe voxel, every non-empty range / open end / clipped corner is reached as a solver-chosen path.",
     "Program lengths, shapes and series lengths bounded as stated in the evidence; dates are concrete; exact reals.",
     "DESIGN.md §5 C02")
+add("C13", "symbolic execution of ConcentrationAnalysis (symx) with the stages as uninterpreted functions; stage order, cleaning filter, diff options and metadata decided by z3 (EUF + LRA), counterexamples replayed with the solver's own function interpretation",
+    "Bounded symbolic model checking: pixels are symbolic reals, reduction/balancing/restoration/model are uninterpreted functions (restoration non-local), so any swapped, skipped, duplicated or mis-fed stage changes the result term; all diff options, stage-presence patterns, both orders, 0..3 extra baselines.",
+    "Shapes 2x2 / 1x2; integer dtypes with concrete values (promotion by skimage trusted); compare_images stubbed as |a-b|.",
+    "DESIGN.md §5 C13")
